@@ -264,11 +264,13 @@ package diff
 //@ props C12
 //@ safety
 //@ pure
+//@ requires vs_nonNilItem(item)
 
 //@ func getSchemaTypeStr
 //@ props C12
 //@ safety
 //@ pure
+//@ requires vs_nonNilItem(item)
 
 //@ func formatTypeString
 //@ props C12
